@@ -326,6 +326,7 @@ func impostorCase(c *mon.Case, r *mon.Run, victim o4.Bridge, mode string, record
 func TestCheck(t *testing.T) {
 	r := mon.Start(t, "C02")
 	defer r.Finish()
+	r.SpinWatch(memwire.BytesMoved)
 	r.Note("rule", "per bridge: genuine control (must complete, data both ways); man-in-the-middle on a genuine real server's first write: EVERY single bit of representative, AUTH, mark and MAC (768 bits) plus PRNG-sampled padding bits and seed-frame bits, truncation/insertion/deletion inside every field, field offsets found from public data only; impostor servers (reference implementation with the victim's public B and NODEID but another private key; replay of a recorded genuine response; bridge lines whose public key is any of the 14 encodings of a small-order point, served by a peer that computes AUTH with EXP(B,x)=0); clients configured with NODEID or B differing in one bit or random; all under response chunkings {all,1,31,33,63,65,PRNG}; 32 clients handshaking concurrently against one factory under the race detector; ephemeral representatives of all hellos/responses must be pairwise distinct. Non-trivial = a case whose modification was actually applied (or an impostor/misconfiguration/genuine case that ran); distinct = (bridge, class, position, chunking).")
 	dir := o4.StateDir("c02")
 	nBridges := r.Pick(4, 24)
